@@ -424,8 +424,9 @@ def run_check(check, tier, seed=None, budget_s=None, jobs=None):
         'wall_s': round(wall, 2),
         'violations': reported,
     }
-    os.makedirs(os.path.join(VERIF, 'evidence'), exist_ok=True)
-    json.dump(ev, open(os.path.join(VERIF, 'evidence', pid + '.json'), 'w'), indent=1)
+    evdir = os.environ.get('VERIF_EVIDENCE_DIR') or os.path.join(VERIF, 'evidence')   # mutant trials write elsewhere
+    os.makedirs(evdir, exist_ok=True)
+    json.dump(ev, open(os.path.join(evdir, pid + '.json'), 'w'), indent=1)
     for l in lines:
         print(l)
     print('%s tier=%s seed=%d runs=%d distinct_nontrivial=%d violations=%d known=%d wall=%.1fs exit=%d' % (
